@@ -57,8 +57,8 @@ fn na_literal(mut idx: u64) -> String {
 fn space_for(tier: Tier) -> Space {
     let mut s = Space::new();
     match tier {
-        Tier::Quick => s.list("literals<=3", count(3), 64).list("non-ASCII literals<=2", na_count(2), 16),
-        Tier::Thorough => s.list("literals<=4", count(4), 64).list("non-ASCII literals<=3", na_count(3), 16),
+        Tier::Quick => s.list("literals<=3", count(3), 64).list("non-ASCII literals<=2", na_count(2), 16).list("flag strings", 1, 1),
+        Tier::Thorough => s.list("literals<=4", count(4), 64).list("non-ASCII literals<=3", na_count(3), 16).list("flag strings", 1, 1),
     };
     s
 }
@@ -224,6 +224,11 @@ impl Check for C13 {
     fn run_chunk(&self, ctx: &Ctx, chunk: u64, out: &mut ChunkOut) {
         let sp = space_for(ctx.tier);
         let (seg, lo, hi) = sp.locate(chunk);
+        if crate::space::seg_scope_name(seg) == "flag strings" {
+            let n = super::common::flag_effect(out, "C13", 'q');
+            out.sample(J::obj(vec![("flag_strings_probed", J::i(n as usize))]));
+            return;
+        }
         if crate::space::seg_scope_name(seg).starts_with("non-ASCII") {
             self.non_ascii(out, lo, hi);
             return;
@@ -252,6 +257,8 @@ impl Check for C13 {
                 let ci = flags.contains('i');
                 let base = Case::new("LIT", &lit, flags);
                 out.pin(&|| format!("literal {:?} flags {:?}", lit, flags));
+                // the same text as a regular expression first: nothing of it may carry over
+                let _ = imp::compile(&lit, &flags.replace('q', ""), false);
                 let re = match imp::compile(&lit, flags, false) {
                     Out::Ok(re) => re,
                     o => {
